@@ -12,10 +12,10 @@ import (
 )
 
 type makeAppend struct {
-	fn   *FuncInfo
-	v    types.Object
-	mk   ast.Node
-	app  ast.Node
+	fn  *FuncInfo
+	v   types.Object
+	mk  ast.Node
+	app ast.Node
 }
 
 func makeThenAppend(p *Prog, fns []*FuncInfo) (found []makeAppend, sized int) {
